@@ -225,4 +225,54 @@ def flushLayer (swallow : Bool) : Layer Disk :=
     env := denv
     disk := fun d => d.content }
 
+/-! ## Wrappers as layer transformers: every stack the module can build
+
+`debug.New(store, callback, filter…)`, `flushkv.New(store)` and the realm views (`WithRealm` / `WithExtendedRealm` of a
+wrapper: the same wrapper over the realm view of what it wraps) wrap ANY store.  For the one key the Sequence uses they
+are forwarders: -/
+
+/-- The configuration of a debug store: is there a callback, and does the command filter contain `SetCommand` /
+`GetCommand`. -/
+structure DebugCfg where
+  hasCallback : Bool
+  reportsSet : Bool
+  reportsGet : Bool
+deriving Repr, DecidableEq
+
+/-- `debug.New(store, callback, filter…)` (kvstore/debug/debug.go: `if s.accessCallback != nil && filter.HasBits(SetCommand)
+{ s.accessCallback(SetCommand, key, value) }; return s.underlying.Set(key, value)`): in EVERY configuration the call is
+forwarded; the callback sees it but cannot change it.  `forwardUnreported = false` is the seeded change C07-r6-3: a `Set`
+that is not reported is not forwarded either and answers nil. -/
+def debugLayer {σ : Type} (forwardUnreported : Bool) (c : DebugCfg) (L : Layer σ) : Layer σ :=
+  { get := L.get
+    set := fun s v => if (c.hasCallback && c.reportsSet) || forwardUnreported then L.set s v else (s, true)
+    env := L.env
+    disk := L.disk }
+
+/-- `flushkv.New(store)` over any store: the error of the mutation is returned; `Flush` after a mutation that took effect
+reports nothing the Sequence could act on (its `ErrStoreClosed` is not an error of the mutation).  `swallow = true`: seeded
+change C07-r5-3. -/
+def flushWrap {σ : Type} (swallow : Bool) (L : Layer σ) : Layer σ :=
+  { get := L.get
+    set := fun s v =>
+      match L.set s v with
+      | (s', true) => (s', true)
+      | (s', false) => (s', swallow)
+    env := L.env
+    disk := L.disk }
+
+inductive Wrapper
+  | debug (c : DebugCfg)
+  | flush
+  | realm          -- a realm view made through the wrappers below: for the one key another prefix of the same database
+deriving Repr, DecidableEq
+
+def wrap {σ : Type} : Wrapper → Layer σ → Layer σ
+  | .debug c, L => debugLayer true c L
+  | .flush, L => flushWrap false L
+  | .realm, L => L
+
+/-- The stack `ws` (outermost first) over the store `L`. -/
+def stackLayer {σ : Type} (ws : List Wrapper) (L : Layer σ) : Layer σ := ws.foldr wrap L
+
 end Hive.Seq.Layered
